@@ -47,7 +47,7 @@ def floors(tier):
     f = {"nontrivial": 250, "held:main": 300, "held:catalogue": 12, "counter:symbolic_comparisons": 1000,
          "counter:numeric_points": 900, "counter:identity_checks": 900}
     for c in ("single-state", "single-event", "multi-transition", "has-B/D", "symbolic-magnitude", "time-dependent",
-              "ode-terms", "derived-param", "derived-chain", "range-style", "string-declaration", "no-events", "mixed-routes", "grown-model"):
+              "ode-terms", "derived-param", "derived-chain", "range-style", "string-declaration", "no-events", "mixed-routes", "grown-model", "expression-magnitude", "rate-with-top-level-sum"):
         f["class:" + c] = 5
     f["reach:DeterministicOde.get_ode_eqn"] = 300
     f["reach:BaseOdeModel.get_StateChangeMatrix"] = 300
